@@ -130,7 +130,7 @@ type Case struct {
 	TZ     string `json:"tz,omitempty"` // value of the TZ variable during the run ("-" = unset)
 	// Hazard: the expression contains a range whose size the model could not
 	// bound once it left the specified part; such a case is not executed.
-	Hazard bool `json:"hazard,omitempty"`
+	Hazard bool   `json:"hazard,omitempty"`
 	Exp    Expect `json:"expect"`
 	Msg    string `json:"message,omitempty"`
 }
@@ -186,6 +186,9 @@ func checkResult(res eng.Result, exp Expect) error {
 	if exp.Unspec {
 		return nil
 	}
+	if res.TooBig {
+		return nil // the harness cannot even write the value down: inconclusive
+	}
 	if res.PrepareErr != nil {
 		return fmt.Errorf("Prepare rejected a valid script: %v", res.PrepareErr)
 	}
@@ -214,7 +217,7 @@ func checkResult(res eng.Result, exp Expect) error {
 // checkResult has passed). Skipped outside the specified part and when a
 // pinned (quirk) behaviour was replaced by an error.
 func checkEffects(res eng.Result, exp Expect) error {
-	if exp.Unspec || (exp.Quirk && res.Err != nil) {
+	if exp.Unspec || (exp.Quirk && res.Err != nil) || res.TooBig {
 		return nil
 	}
 	if exp.CheckTrace {
@@ -272,7 +275,16 @@ func runCase(c *Case) error {
 		}()
 	}
 	if len(c.HostVals) == 0 && !c.UseRun {
-		res := eng.Quick(c.Script, obj, c.Vars, c.NoOpt)
+		// the engine has a 20 s deadline of its own; a call that has not come
+		// back long after that is stuck inside a single operation
+		done := make(chan eng.Result, 1)
+		go func() { done <- eng.Quick(c.Script, obj, c.Vars, c.NoOpt) }()
+		var res eng.Result
+		select {
+		case res = <-done:
+		case <-time.After(90 * time.Second):
+			return fmt.Errorf("the engine did not return within 90 s although its context expired after 20 s")
+		}
 		if err := checkResult(res, c.Exp); err != nil {
 			return err
 		}
